@@ -1411,7 +1411,8 @@ def isunresolvable(t: tp.Any) -> bool:
         >>> isunresolvable(...)
         True
     """
-    return t in _UNRESOLVABLE
+    # A subscripted callable (or `type[...]`) resolves to the bare `Callable` origin.
+    return t in _UNRESOLVABLE or origin(t) in _UNRESOLVABLE
 
 
 _UNRESOLVABLE = (
@@ -1505,6 +1506,10 @@ def unwrap(t: tp.Any) -> tp.Any:
         if hasattr(t, "__supertype__"):
             lt = t
             t = t.__supertype__
+            continue
+        if type(t) is tp.TypeVar:
+            lt = t
+            t = normalize_typevar(t)
             continue
 
         return t
